@@ -221,7 +221,12 @@ Module Example.
     MList {| mp_lead := false; mp_segs := ["Debug"] |} Paren [I "name"; G Paren [I "Enum"]].
   Definition I0 : interp :=
     {| i_ne := fun _ _ => true; i_eq := fun _ _ => false; i_cmp := fun _ _ => Eq;
-       i_partial_cmp := fun _ _ => None; i_user := fun _ _ => VUnit |}.
+       i_partial_cmp := fun _ _ => None; i_user := fun _ _ => VUnit;
+       i_size_of_self := 0;
+       i_clone := fun v => v;
+       i_clone_from := fun _ v => v;
+       i_into := fun v => v;
+       i_default := fun _ => VUnit |}.
   Definition items := match expand_debug all_traits [TDebug] d m with Ok l => l | _ => [] end.
   Definition c := match debug_cfg_of all_traits [TDebug] d m with
                   | Ok c => c | _ => {| dc_enum_name := None; dc_variants := [] |} end.
